@@ -217,13 +217,20 @@ func (h *hstate) del(s *c05x.DeleteStep) {
 	}
 }
 
+var scriptNext bool // the next generated history is the scripted one
+
 func runHist(r *hx.Rng, in *c05x.HistIn) (rec c05x.HistRec) {
 	gen := in == nil
+	scripted := gen && scriptNext
+	scriptNext = false
 	if gen {
 		rec.HistHead = c05x.HistHead{K: "hist", Keep: c05x.Pick(r, -1, 0, 1, 2, 300), MaxCache: c05x.Pick(r, 2, 3, 5, 515), GenesisHeight: uint32(r.Intn(4)),
 			GenesisDiff: r.Bool(), Prestate: []c05x.KV{}, FlushEvery: r.Bool(), Drain: r.Intn(4) == 0}
 		if rec.Drain {
 			rec.MaxCache = c05x.Pick(r, 1, 2, 3)
+		}
+		if scripted {
+			rec.Scripted, rec.Drain, rec.FlushEvery, rec.MaxCache = true, true, true, 2
 		}
 		for i, n := 0, r.Intn(5); i < n; i++ {
 			rec.Prestate = append(rec.Prestate, c05x.KV{c05x.Hex(bytes.Join(c05x.StatePrefix, c05x.SmallKey(r))), c05x.Hex(r.Bytes(r.Intn(4)))})
@@ -233,7 +240,11 @@ func runHist(r *hx.Rng, in *c05x.HistIn) (rec c05x.HistRec) {
 		rec.HistHead = in.HistHead
 	}
 	rec.Steps = []interface{}{}
-	wd := time.AfterFunc(60*time.Second, func() { fmt.Fprintln(os.Stderr, "c05: history timed out"); os.Exit(3) })
+	scale := time.Duration(1)
+	if v, err := strconv.Atoi(os.Getenv("VERIF_WATCHDOG_X")); err == nil && v > 0 {
+		scale = time.Duration(v)
+	}
+	wd := time.AfterFunc(60*time.Second*scale, func() { fmt.Fprintln(os.Stderr, "c05: history timed out"); os.Exit(3) })
 	defer wd.Stop()
 	database, err := db.NewInMemoryDB()
 	c05x.Must(err)
@@ -259,7 +270,11 @@ func runHist(r *hx.Rng, in *c05x.HistIn) (rec c05x.HistRec) {
 			drainApply = rec.MaxCache + 2 + r.Intn(3)
 			drainDelete = drainApply
 		}
-		for i, n := 0, 4+r.Intn(9)+2*drainApply; i < n; i++ {
+		steps := 4 + r.Intn(9) + 2*drainApply
+		if scripted {
+			steps = 2 * drainApply // exactly: apply drainApply blocks, delete them all
+		}
+		for i, n := 0, steps; i < n; i++ {
 			tip := h.tipBlock()
 			wantDelete := r.Intn(100) >= 55 && (tip.Header.Height > g || r.Intn(4) == 0)
 			if drainApply > 0 {
@@ -415,6 +430,7 @@ func main() {
 		return
 	}
 	for i := 0; i < *n; i++ {
+		scriptNext = i == 0
 		o.Put(runHist(r, nil))
 	}
 }
